@@ -80,6 +80,14 @@ def parse_cases(rng, tier):
                     cases.append(str_case("d_fromstr", t, "directed-boundary"))
                     if b"." not in t:
                         cases.append(str_case("u_fromstr", t, "directed-boundary"))
+    # very long fractional parts that are almost all zeros (so that the digits themselves still fit 256 bits): lengths
+    # around the first multiples of 256, where a narrowed length counter would wrap back under 18 (lengths near 2^16 are
+    # beyond what a generated Coq literal can hold)
+    for L in list(range(17, 22)) + list(range(250, 280)) + list(range(508, 534)):
+        for whole in (b"0", b"3"):
+            for last in (b"5", b"0"):
+                t = whole + b"." + b"0" * (L - 1) + last
+                cases.append(str_case("d_fromstr", t, "directed-boundary"))
     for s in special:
         cases.append(str_case("d_fromstr", s, "directed-boundary"))
         cases.append(str_case("u_fromstr", s, "directed-boundary"))
